@@ -573,6 +573,35 @@ Proof.
   - cbn [nodes_of untar expect result_dir]. reflexivity.
 Qed.
 
+(* ---------- CreateFile does not depend on what was at the path ---------- *)
+
+Lemma in_dir_last nm g m ents old : assoc nm ents = None ->
+  in_dir nm g (FDir m (ents ++ [(nm, old)])) =
+    match g (Some old) with
+    | FErr e => FErr e
+    | FOk (Some n, t) => FOk (FDir (if t then touched m else m) (ents ++ [(nm, n)]))
+    | FOk (None, t) => FOk (FDir (if t then touched m else m) ents)
+    end.
+Proof.
+  intros Hf. cbn [in_dir]. rewrite (assoc_snoc nm ents old Hf).
+  destruct (g (Some old)) as [[[n|] t]|e]; try reflexivity;
+    rewrite (upd_ents_snoc _ nm ents old Hf); reflexivity.
+Qed.
+
+(* os.RemoveAll first: whatever object [old] sits at the path -- a file with other content, other
+   xattrs, other links, a directory with children, a symlink, a device -- CreateFile leaves the same
+   directory as when nothing was there *)
+Theorem create_file_independent m ents nm old mt xs data :
+  assoc nm ents = None ->
+  create_file pr o [nm] mt xs data (FDir m (ents ++ [(nm, old)])) =
+  create_file pr o [nm] mt xs data (FDir m ents).
+Proof.
+  intros Hf. unfold create_file, remove_all, create_write.
+  rewrite entry_op_single, (in_dir_last nm _ m ents old Hf). cbn [bindf].
+  rewrite (entry_op_single nm _ (FDir m ents)), (in_dir_fresh nm _ m ents Hf). cbn [bindf].
+  rewrite !entry_op_single, !(in_dir_fresh nm _ _ ents Hf). reflexivity.
+Qed.
+
 End Nodes.
 
 (* ---------- Part E: the whole tree ---------- *)
@@ -899,3 +928,24 @@ Proof.
     all: try constructor.
 Qed.
 
+
+(* ---------- why CreateFile removes first: the reuse variant keeps what the archive does not have ---------- *)
+
+(* a directory holding the file "a" of an earlier generation: other content, an xattr u=1 *)
+Definition reuse_before : fnode :=
+  FDir (mkFMeta 493 0 0 (Stamp 1) [])
+       [([97], FFile (mkFMeta 420 0 0 (Stamp 1) [([117], [1])]) [9; 9])].
+
+Definition xattrs_of_a (r : fres fnode) : option (list (bytes * bytes)) :=
+  match r with
+  | FOk n => option_map (fun e => fm_xattrs (fmeta_of e)) (lookup [[97]] n)
+  | FErr _ => None
+  end.
+
+(* the new generation of "a": content [1], mtime 5, no xattrs *)
+Lemma create_file_reuse_refuted :
+  let pr := mkProc 0 0 18 in
+  let mt := mkMeta 0 0 33188 5 in
+  xattrs_of_a (create_file_reuse pr default_opts [[97]] mt [] [1] reuse_before) = Some [([117], [1])] /\
+  xattrs_of_a (create_file pr default_opts [[97]] mt [] [1] reuse_before) = Some [].
+Proof. vm_compute. split; reflexivity. Qed.
